@@ -404,7 +404,11 @@ def gen_ops(rng: random.Random, case, n_ops: int, invalid_rate: float, query_rat
             if rng.random() < 0.015:
                 pr = 3
             big = rng.random() < (0.25 if focus == "limits" else 0.05)
-            emit(dict(op="add", pulse=pulse_for(obj, big=big), channel=name, protocol=pr))
+            pl = pulse_for(obj, big=big)
+            if pr != 3 and rng.random() < (0.35 if focus == "conflict" else 0.12):
+                # the estimate for exactly the add that follows (C03)
+                emit(dict(op="estimate", pulse=pl, channel=name, protocol=pr))
+            emit(dict(op="add", pulse=pl, channel=name, protocol=pr))
         elif kind == "delay":
             d = gen_duration(rng, spec)
             if rng.random() < invalid_rate:
